@@ -17,6 +17,11 @@ type BatchedPrivateIssuer struct {
 }
 
 func NewBatchedPrivateIssuer(key *oprf.PrivateKey) *BatchedPrivateIssuer {
+	// oprf.PrivateKey computes and caches its public key on first use without
+	// synchronization. Force that here so that the issuer only reads the key
+	// afterwards and can be shared between goroutines.
+	key.Public()
+
 	return &BatchedPrivateIssuer{
 		tokenKey: key,
 	}
